@@ -136,6 +136,8 @@ def check(case):
             res.label("row-listed")
         if prog.get("hook_faults"):
             res.label("hook-fault")
+        if case.get("inherited_setup_tag"):
+            res.label("inherited-@setup/@teardown")
         all_names = [s.name for f in run1.features for s in f.walk_scenarios()]
         if any(all_names.count(n) > 1 for n in want_names):
             res.label("listed-name-not-unique")
@@ -157,6 +159,13 @@ def case_st(draw):
             "rerun_file": draw(st.sampled_from(["rerun.txt", "rerun.txt", "reports/rerun.txt", "features/rerun.features"]))}
     if draw(st.booleans()):
         case["subdirs"] = {"1": "sub"}
+    if draw(st.integers(0, 4)) == 0:
+        # @setup / @teardown inherited from the feature or a rule: only a scenario's OWN tag exempts it from a
+        # location selection, so these scenarios are skipped in run 2 like all other unlisted ones
+        f = draw(st.sampled_from(prog["features"]))
+        target = draw(st.sampled_from([f] + [it for it in f["items"] if it["k"] == "r"]))
+        target["tags"] = list(target["tags"]) + [draw(st.sampled_from(["setup", "teardown"]))]
+        case["inherited_setup_tag"] = True
     if draw(st.integers(0, 2)) == 0:
         # equally named scenarios / outlines (typically in different rules): names are no identity
         for f in prog["features"]:
@@ -174,7 +183,7 @@ def explore(rec):
 
 def required_labels(tier):
     return ["no-failures", "failures", "kind:failed", "kind:error", "rerun-file:subdir", "stale-removed",
-            "stale-overwritten", "row-listed", "hook-fault", "listed-name-not-unique"]
+            "stale-overwritten", "row-listed", "hook-fault", "listed-name-not-unique", "inherited-@setup/@teardown"]
 
 
 KNOWN_PREDICATES = {}
